@@ -9,9 +9,10 @@ What is new against C01: an item expression may call a FUNCTION that prints (the
 every expression is run by the expression hypothesis at its own amount of fuel), and the PRINT flag
 (`should_skip_new_line`) is not part of `Rel`.  The flag is followed explicitly: after a non-empty item list it is
 `endsInSeparator items` whatever it was before (a value lowers it, a separator raises it, and what a callee did to it in
-between is overwritten by the item's own `PrintValueFromA`); for an empty item list it is what it was at the start,
-and that is `false` — see `head_steps` for where this comes from (the ONE place to change when the interpreter's
-`PrintSetPrinterType` is repaired to clear the flag).  `PrintEnd` always leaves it `false`.
+between is overwritten by the item's own `PrintValueFromA`); for an empty item list it is what it was after the
+statement's head, and that is `false`: `PrintSetPrinterType` clears the flag (`head_steps`).  Before the repair 89314cd of
+the interpreter it did not, and this proof needed the hypothesis "a PRINT inside a procedure has an item" — a bare `PRINT`
+in a function called from `PRINT 1; F%(2)` consumed the caller's pending `;`.  `PrintEnd` always leaves the flag `false`.
 -/
 set_option linter.unusedVariables false
 set_option linter.unusedSimpArgs false
@@ -185,21 +186,17 @@ theorem items_correct (W : World) (fuel : Nat) (ih : IHle W fuel) (sc : Scope) (
 
 /-! ### the statement -/
 
-/-- `PrintSetPrinterType; LoadIntoA 0; PrintSetFormatStringFromA`: only A and the program counter change, and the
-PRINT flag is not raised.
-
-**The place to change when `PrintSetPrinterType` is repaired to clear the flag**: `σ1` becomes
-`Vm.advance { σ with skipNewline := false }`, the last component `fun _ => rfl`; the hypothesis of the last component
-is then not needed any more (in `case_print`, `hflag0` then holds without `ha.quiet` / `hw.2`). -/
+/-- `PrintSetPrinterType; LoadIntoA 0; PrintSetFormatStringFromA`: only A, the program counter and the PRINT flag change;
+the flag is cleared (every PRINT statement starts with no separator pending: repair 89314cd of the interpreter). -/
 theorem head_steps (code : Code) (p : Pos) (σ : Vm)
     (hc : CodeAt code σ.pc [(CInstr.printSetPrinter, p), (CInstr.loadA (.int 0), p), (CInstr.printSetFormat, p)]) :
     ∃ τ, Steps code σ τ ∧ τ.pc = σ.pc + 3 ∧ τ.ctx = σ.ctx ∧ τ.out = σ.out ∧ τ.data = σ.data ∧
       τ.dataIdx = σ.dataIdx ∧ τ.queue = σ.queue ∧ τ.funRes = σ.funRes ∧ Stk σ τ ∧
-      (σ.skipNewline = false → τ.skipNewline = false) := by
+      τ.skipNewline = false := by
   have h0 : code[σ.pc]? = some (CInstr.printSetPrinter, p) := hc.head
   have h1 : code[σ.pc + 1]? = some (CInstr.loadA (.int 0), p) := hc.tail.head
   have h2 : code[σ.pc + 1 + 1]? = some (CInstr.printSetFormat, p) := hc.tail.tail.head
-  let σ1 : Vm := Vm.advance σ
+  let σ1 : Vm := Vm.advance { σ with skipNewline := false }
   let σ2 : Vm := Vm.advance (Vm.setA σ1 (.int 0))
   let σ3 : Vm := Vm.advance σ2
   have s1 : Vm.step code σ = .next σ1 := by simp only [Vm.step, h0]; rfl
@@ -211,7 +208,7 @@ theorem head_steps (code : Code) (p : Pos) (σ : Vm)
     have ha : σ2.regs.a = .int 0 := rfl
     simp only [Vm.step, h2', ha]; rfl
   exact ⟨σ3, Steps.cons s1 (Steps.cons s2 (Steps.one s3)), rfl, rfl, rfl, rfl, rfl, rfl, rfl,
-    ⟨rfl, rfl, rfl, rfl, rfl, rfl⟩, fun h => h⟩
+    ⟨rfl, rfl, rfl, rfl, rfl, rfl⟩, rfl⟩
 
 end RbThm.ProcSim.SimPrint
 
@@ -229,16 +226,12 @@ theorem case_print (W : World) (fuel : Nat) (ih : IHle W fuel) (items : List Pri
       (Proc.Ref.exec W.P (fuel + 1) (desugar (.print items p)) s) := by
   simp only [compileStmt] at hc
   simp only [Wf] at hw
-  obtain ⟨hwi, hne⟩ := hw
+  have hwi := hw
   subst hpc
   obtain ⟨σ3, pre, hp3, hctx3, hout3, hdata3, hidx3, hq3, hf3, hstk3, hflag3⟩ :=
     head_steps W.code p σ hc.append_left.append_left
-  -- an item-less PRINT starts with the flag down (it is a statement of the main module)
-  have hflag0 : items = [] → σ3.skipNewline = false := fun hi =>
-    hflag3 (ha.quiet (by
-      cases hip : sc.inProc with
-      | false => rfl
-      | true => exact absurd hi (hne hip)))
+  -- the statement's head has cleared the flag
+  have hflag0 : items = [] → σ3.skipNewline = false := fun _ => hflag3
   have hr3 : Rel sc [] below s σ3 := hr.same hctx3 hout3 hdata3 hidx3 hq3 hf3
   have hci : CodeAt W.code (σ.pc + 3) (compileItems W.lay p (σ.pc + 3) items) := hc.append_left.append_right
   have hit := items_correct W fuel ih sc p below items fuel (σ.pc + 3) σ3 s (Nat.le_refl _) hci hp3 hr3 hwi
